@@ -375,19 +375,24 @@ func (p *wkbParser) parseGeometryCollection(ctype CoordinatesType) (GeometryColl
 	if n == 0 {
 		return GeometryCollection{}.ForceCoordinatesType(ctype), nil
 	}
-	geoms := make([]Geometry, n)
+	// The children are collected as they are parsed rather than into a
+	// slice sized from the count up front: collections nest, so sizing every
+	// level from its own (input-bounded) count adds up to memory quadratic in
+	// the input length.
+	var geoms []Geometry
 	for i := uint32(0); i < n; i++ {
-		geoms[i], err = p.inner()
+		g, err := p.inner()
 		if err != nil {
 			return GeometryCollection{}, err
 		}
-		if geoms[i].CoordinatesType() != ctype {
+		if g.CoordinatesType() != ctype {
 			err := mismatchedGeometryCollectionDimsError{
 				ctype,
-				geoms[i].CoordinatesType(),
+				g.CoordinatesType(),
 			}
 			return GeometryCollection{}, err
 		}
+		geoms = append(geoms, g)
 	}
 	return NewGeometryCollection(geoms), nil
 }
